@@ -103,7 +103,7 @@ def sortTpls (l : List (Nat × List IE)) : List (Nat × List IE) := l.foldl (fun
 /-- `exp failnext <kind>`: err / refused = the Write fails (whatever the error is), short<k> = the Write
     returns (k, nil) having written k bytes -/
 def parseOutcome (tok : String) : Option WriteOutcome :=
-  if tok == "err" || tok == "refused" then some .fail
+  if tok == "err" || tok == "refused" || tok == "errfull" then some .fail   -- errfull: (len, error) - still a failed write
   else if tok.startsWith "short" then ((tok.drop 5).toNat?).map .short
   else none
 
